@@ -59,8 +59,9 @@ def compute_domains_affine_geq(domains: NDArray, parameters: NDArray) -> int:
     :param parameters: the parameters of the propagator, a is an alias for parameters
     :return: the status of the propagation (consistency, inconsistency or entailment) as an int
     """
-    domain_sum_min = domain_sum_max = parameters[-1]
+    domain_sum_min = domain_sum_max = np.int64(parameters[-1])  # 64 bits also when the JIT is disabled
     for i, c in enumerate(parameters[:-1]):
+        c = np.int64(c)  # a product of two numpy 32-bit integers would be computed in 32 bits
         if c > 0:
             domain_sum_min -= c * domains[i, MAX]
             domain_sum_max -= c * domains[i, MIN]
@@ -73,6 +74,7 @@ def compute_domains_affine_geq(domains: NDArray, parameters: NDArray) -> int:
         return PROP_INCONSISTENCY
     old_domains = np.copy(domains)
     for i, c in enumerate(parameters[:-1]):
+        c = np.int64(c)
         if c != 0:
             if c > 0:
                 new_min = old_domains[i, MAX] - (domain_sum_min // -c)
